@@ -58,11 +58,15 @@ SignalAccept(S, ev) == /\ ev.id < 256 /\ ev.src < 256 /\ Has(S.srcs, ev.src) /\ 
 \* omission on request (C15): the request takes effect one block later, never for the
 \* first block, and not at all for types of 8 bits or less (constant detection rules there)
 RegStep(r) == ((2 * r) + (r % 2)) % 256
+\* the register is 0 or odd; from an odd value it reaches 255 within 7 steps and stays
+StepN(r, m) == LET F[k \in 0..(IF m < 8 THEN m ELSE 8)] == IF k = 0 THEN r ELSE RegStep(F[k-1])
+               IN F[IF m < 8 THEN m ELSE 8]
 OmitBlocks(g, nblk1) ==
-    \* blocks g.nblk .. nblk1-1 complete during this call, all under register g.reg stepping
-    LET F[k \in g.nblk..nblk1] == IF k = g.nblk THEN g.reg ELSE RegStep(F[k-1])
-    IN [reg |-> F[nblk1],
-        synth |-> g.synth \cup { k \in g.nblk..(nblk1-1) : F[k] > 1 /\ k > 0 /\ g.bits > 8 }]
+    \* blocks g.nblk .. nblk1-1 complete during this call; block g.nblk+j sees StepN(g.reg, j),
+    \* which exceeds 1 iff g.reg > 1, or g.reg = 1 and j >= 1
+    [reg |-> StepN(g.reg, nblk1 - g.nblk),
+     synth |-> g.synth \cup { k \in g.nblk..(nblk1-1) :
+                                 (g.reg > 1 \/ (g.reg = 1 /\ k > g.nblk)) /\ k > 0 /\ g.bits > 8 }]
 
 FsrUpd(g, ev) ==
     IF ev.n = 0 THEN g
